@@ -2,6 +2,7 @@ package main
 
 import (
 	"go/ast"
+	"go/token"
 	"go/types"
 )
 
@@ -32,41 +33,87 @@ func init() {
 				recv = info.Defs[fd.Recv.List[0].Names[0]]
 			}
 			isFork := fd.Name.Name == "Fork" && recvName(fd) == "Process"
-			ast.Inspect(fd.Body, func(nd ast.Node) bool {
-				as, ok := nd.(*ast.AssignStmt)
-				if !ok || len(as.Lhs) != len(as.Rhs) {
-					return true
-				}
-				for i, l := range as.Lhs {
-					se, ok := unparen(l).(*ast.SelectorExpr)
-					if !ok || se.Sel.Name != "Forks" {
-						continue
-					}
-					f, ok := info.ObjectOf(se.Sel).(*types.Var)
-					if !ok || !f.IsField() || f.Pkg() == nil || f.Pkg().Path() != mx("lang") {
-						continue
-					}
-					n++
-					key := "store@" + funcKey("lang", fd) + "#" + itoa(n)
-					r := unparen(as.Rhs[i])
-					if isFork {
-						nFork++
-						good := false
-						if rs, ok := r.(*ast.SelectorExpr); ok && rs.Sel.Name == "Forks" {
-							if id, ok := unparen(rs.X).(*ast.Ident); ok && info.ObjectOf(id) == recv {
-								good = true
-							}
+			defs := localDefs(info, fd.Body)
+			// innermost loop (for/range/function literal) around a node: a local defined outside the loop
+			// that holds the store is ONE value for all iterations, not a fresh one per statement
+			loopOf := func(nd ast.Node) ast.Node {
+				var res ast.Node
+				for _, a := range pathTo(fd.Body, nd) {
+					switch a.(type) {
+					case *ast.ForStmt, *ast.RangeStmt, *ast.FuncLit:
+						if a != nd {
+							res = a
 						}
-						c.Check(good, "R39f", key, as.Pos(), "Process.Fork gives the block the forking statement's registry (%s): break/return unwinding through that statement cancels exactly the blocks it forked", c.src(as))
-						continue
 					}
+				}
+				return res
+			}
+			// valueOf: the stored expression, a local defined once (in the same loop iteration) followed to its definition
+			valueOf := func(at ast.Node, r ast.Expr) ast.Expr {
+				r = unparen(r)
+				if id, ok := r.(*ast.Ident); ok {
+					if ds := defs[info.ObjectOf(id)]; len(ds) == 1 && ds[0] != nil && loopOf(ds[0]) == loopOf(at) {
+						return unparen(ds[0])
+					}
+				}
+				return r
+			}
+			isForksField := func(id *ast.Ident) bool {
+				f, ok := info.ObjectOf(id).(*types.Var)
+				return ok && id.Name == "Forks" && f.IsField() && f.Pkg() != nil && f.Pkg().Path() == mx("lang")
+			}
+			store := func(at ast.Node, rhs ast.Expr) {
+				n++
+				key := "store@" + funcKey("lang", fd) + "#" + itoa(n)
+				r := valueOf(at, rhs)
+				if isFork {
+					nFork++
 					good := false
-					if call, ok := r.(*ast.CallExpr); ok && len(call.Args) == 0 {
-						if fn, ok := callee(info, call).(*types.Func); ok && fn.Name() == "NewForkManagement" {
+					if rs, ok := r.(*ast.SelectorExpr); ok && isForksField(rs.Sel) {
+						if id, ok := unparen(rs.X).(*ast.Ident); ok && info.ObjectOf(id) == recv {
 							good = true
 						}
 					}
-					c.Check(good, "R39f", key, as.Pos(), "%s gives the process a registry of its own (%s): a registry shared between statements lets `break` cancel statements outside the blocks it leaves", fd.Name.Name, c.src(as))
+					c.Check(good, "R39f", key, at.Pos(), "Process.Fork gives the block the forking statement's registry (%s): break/return unwinding through that statement cancels exactly the blocks it forked", c.src(at))
+					return
+				}
+				good := false
+				if call, ok := r.(*ast.CallExpr); ok && len(call.Args) == 0 {
+					if fn, ok := callee(info, call).(*types.Func); ok && fn.Name() == "NewForkManagement" {
+						good = true
+					}
+				}
+				// the constructor written out: &ForkManagement{…} is a fresh registry as well
+				if u, ok := r.(*ast.UnaryExpr); ok && u.Op == token.AND {
+					if cl, ok := unparen(u.X).(*ast.CompositeLit); ok && namedPath(info.TypeOf(cl)) == mx("lang")+".ForkManagement" {
+						good = true
+					}
+				}
+				c.Check(good, "R39f", key, at.Pos(), "%s gives the process a registry of its own (%s): a registry shared between statements lets `break` cancel statements outside the blocks it leaves", fd.Name.Name, c.src(at))
+			}
+			ast.Inspect(fd.Body, func(nd ast.Node) bool {
+				switch x := nd.(type) {
+				case *ast.AssignStmt:
+					if len(x.Lhs) != len(x.Rhs) {
+						return true
+					}
+					for i, l := range x.Lhs {
+						if se, ok := unparen(l).(*ast.SelectorExpr); ok && isForksField(se.Sel) {
+							store(x, x.Rhs[i])
+						}
+					}
+				case *ast.CompositeLit:
+					// Process{Forks: …} / &Process{Forks: …}
+					if namedPath(info.TypeOf(x)) != mx("lang")+".Process" {
+						return true
+					}
+					for _, el := range x.Elts {
+						if kv, ok := el.(*ast.KeyValueExpr); ok {
+							if k, ok := kv.Key.(*ast.Ident); ok && isForksField(k) {
+								store(kv, kv.Value)
+							}
+						}
+					}
 				}
 				return true
 			})
